@@ -51,9 +51,11 @@ pub fn template(flags: &[String]) -> String {
     if on("modes") {
         s.push_str("C2: <M2>'c';\n");
     }
-    s.push_str(&format!("D: {} | {};\n",
-        if on("la") { "/d/ ?= 'e'" } else { "/d/" },
-        if on("la") { "'f' ?! \"g\"" } else { "'f'" }));
+    // attributes behind a lookahead: clipped (lac), member name (lam), user type (lau)
+    let d_attr = format!("{}{}", if on("lac") { "^" } else if on("lam") { "@dm" } else { "" }, if on("lau") && !on("lac") { ": my::DT" } else { "" });
+    s.push_str(&format!("D: {}{} | {}{};\n",
+        if on("la") { "/d/ ?= 'e'" } else { "/d/" }, d_attr,
+        if on("la") { "'f' ?! \"g\"" } else { "'f'" }, if on("lac") { "^" } else { "" }));
     s
 }
 
